@@ -1,7 +1,7 @@
 \* liveness under fairness: with one honest peer among faulty ones the node reaches the honest height
 CONSTANTS HA = 2 HB = 0 ForkAt = 0 Start = 0 MaxIter = 0 WithCancel = FALSE
   Peers = {"honest", "corrupt", "mute", "other"}
-  Verify = TRUE Retry = TRUE CheckedStore = TRUE CtxAwareSends = TRUE
+  Verify = TRUE Retry = TRUE CheckedStore = TRUE CtxAwareSends = TRUE FieldsChecked = TRUE
   ClassOf <- MCIdentity EmptyA <- MCEmptyMix EmptyB <- MCNoEmpty
 SPECIFICATION LiveSpec
 VIEW view
